@@ -4,7 +4,7 @@
    N, Z, positive and nat stay the extracted inductive types. *)
 From Coq Require Extraction.
 From Coq Require Import ExtrOcamlBasic.
-From G Require Import Base Ber Helpers Ldap Response Mux Directory Sys Writer Tls.
+From G Require Import Base Ber Helpers Ldap Response Mux Directory Sys Writer Tls Addr.
 Extraction Language OCaml.
 Extraction "model.ml"
   Ber.bytes_of Ber.read_packet Ber.decode_packet Ber.value_of Ber.enc_int Ber.enc_len
@@ -17,4 +17,5 @@ Extraction "model.ml"
   Sys.step Sys.quiesce Sys.init Sys.fixed_cfg Sys.pinned_cfg Sys.run_labels Sys.do_op
   Writer.wrun Writer.winit Writer.wstep
   Tls.handler_ran Tls.std_hs_ok Tls.dir_tls_config
-  Helpers.sid_bytes Helpers.sid_to_parts Helpers.new_entry Helpers.add_value.
+  Helpers.sid_bytes Helpers.sid_to_parts Helpers.new_entry Helpers.add_value
+  Addr.validate_addr.
